@@ -331,6 +331,7 @@ def run(ctx):
     ctx.floor("seek-addressed reader accessors", n_acc, 3)
     for q in ("LevelDataStream.__getitem__", "LevelDataStream.iter"):
         check_box_selection(ctx, prog.func(PC, q, P))
+    prog.func(PC, "LevelDataSelector.__getitem__", P)      # anchored for the generic lints (level key handling)
     check_selector(ctx)
     hfab.check_parser(ctx, P, "shape_from_header")
     if ctx.tier == "thorough":
